@@ -129,6 +129,35 @@ theorem C10_fixed_1sec (R : Rnd) (start d : ℤ) (hs0 : 0 ≤ start) (hs1 : star
     getTimeFromTicksFixed R.r start 86400 (encode R.r 86400 d) = ⟨start, d⟩ :=
   (C10_fixed R start 86400 1 d (by norm_num) (by norm_num) hs0 hs1 hd0 (by omega)).2.2.2.2.2 rfl
 
+/-! ## order preservation of the repaired decoder -/
+
+/-- the repaired decoder is monotone in the ticks: a larger tick count never decodes to an earlier
+    instant (every rounding operator, every `ipd ≥ 1`, all `uint32` tick values) -/
+theorem C10_decode_mono (R : Rnd) (start ipd k1 k2 : ℤ) (h1 : 1 ≤ ipd) (hs0 : 0 ≤ start)
+    (hs1 : start + 86402 < 18446744073709551616) (h0 : 0 ≤ k1) (hk : k1 ≤ k2) (h2 : k2 < 4294967296) :
+    (getTimeFromTicksFixed R.r start ipd k1).sec * 1000000000 + (getTimeFromTicksFixed R.r start ipd k1).nanos ≤
+    (getTimeFromTicksFixed R.r start ipd k2).sec * 1000000000 + (getTimeFromTicksFixed R.r start ipd k2).nanos := by
+  obtain ⟨ho1, _⟩ := fixed_offset R start ipd k1 h1 h0 (by omega) hs0 hs1
+  obtain ⟨ho2, _⟩ := fixed_offset R start ipd k2 h1 (by omega) h2 hs0 hs1
+  have hm := fixedOff_mono R ipd k1 k2 h1 h0 hk h2
+  unfold Decoded.offsetNs at ho1 ho2
+  omega
+
+/-- write then read preserves the order of timestamps inside an interval: for offsets `d1 ≤ d2`
+    of one interval the decoded instants are in the same order (every rounding operator, every
+    timeframe dividing a day) -/
+theorem C10_roundtrip_mono (R : Rnd) (start ipd tfs d1 d2 : ℤ) (h1 : 1 ≤ ipd) (hday : ipd * tfs = 86400)
+    (hs0 : 0 ≤ start) (hs1 : start + 86402 < 18446744073709551616)
+    (hd0 : 0 ≤ d1) (h12 : d1 ≤ d2) (hd2 : d2 < tfs * 1000000000) :
+    (getTimeFromTicksFixed R.r start ipd (encode R.r ipd d1)).sec * 1000000000 +
+      (getTimeFromTicksFixed R.r start ipd (encode R.r ipd d1)).nanos ≤
+    (getTimeFromTicksFixed R.r start ipd (encode R.r ipd d2)).sec * 1000000000 +
+      (getTimeFromTicksFixed R.r start ipd (encode R.r ipd d2)).nanos := by
+  obtain ⟨_, _, _, hk10, _, _⟩ := encode_core R ipd tfs d1 h1 hday hd0 (by omega)
+  obtain ⟨_, _, _, _, hk21, _⟩ := encode_core R ipd tfs d2 h1 hday (by omega) hd2
+  exact C10_decode_mono R start ipd _ _ h1 hs0 hs1 hk10
+    (C10_encode_mono R ipd tfs d1 d2 h1 hday hd0 h12 hd2) hk21
+
 /-! ## the decoder as written -/
 
 /-- the property at full strength for the code as written -/
@@ -275,5 +304,10 @@ example : secRoundsUp rne 1440 (encode rne 1440 20383000000) = false ∧
   decide +kernel
 /-- … and fail for the witness of the finding -/
 example : secRoundsUp rne 1440 (encode rne 1440 20000000000) = true := by decide +kernel
+
+/-- `C10_decode_mono` is not vacuous and not trivially an equality: consecutive ticks of a 1Min
+    bucket decode 14 ns apart -/
+example : fixedOff rne 1440 1431655765 = 19999999995 ∧ fixedOff rne 1440 1431655766 = 20000000009 := by
+  decide +kernel
 
 end Mkts.Props.C10
